@@ -370,6 +370,9 @@ advance(struct detached_bitstream bs)
 
     Trace(("Advanced over miss-recognized bit pattern at {%u}",
            nbsx2(rb->base)));
+#ifdef KJN_LBZIP2_VERIF
+    verif_event("x-advance-drop");
+#endif
 
     decoder_free(&rb->ds);
     free(rb);
@@ -455,6 +458,9 @@ do_parse(void)
 
       Trace(("Parser discovered a bit pattern beyond EOF at {%u}",
              nbsx2(rb->base)));
+#ifdef KJN_LBZIP2_VERIF
+    verif_event("x-eof-drop");
+#endif
 
       decoder_free(&rb->ds);
       free(rb);
@@ -499,6 +505,9 @@ do_parse(void)
 
     Trace(("Parser discovered a mis-recognized bit pattern at {%u}",
            nbsx2(ublk->base)));
+#ifdef KJN_LBZIP2_VERIF
+    verif_event("x-parse-discard");
+#endif
     if (ublk->complete) {
       free(ublk);
     }
@@ -513,6 +522,9 @@ do_parse(void)
 
     Trace(("Parser took advantage of pattern found by scanner at {%u}",
            nbsx2(ublk->base)));
+#ifdef KJN_LBZIP2_VERIF
+    verif_event("x-parse-adopt");
+#endif
     advance(ublk->end_pos);
 
     if (ublk->complete) {
@@ -578,6 +590,9 @@ do_retrieve(void)
        legitimate. Continuing would be pointless, so release resources and
        abort this retrieve job. */
     Trace(("Retriever found himself redundand"));
+#ifdef KJN_LBZIP2_VERIF
+    verif_event("x-retr-abort");
+#endif
     work_units++;
     decoder_free(&rb->ds);
     free(rb);
@@ -709,6 +724,9 @@ do_reorder(void)
 
   if (empty(order_q) || pos_lt(peek(reord_q)->base, dq_get(order_q, 0).base)) {
     Trace(("Rejected bogus block at {%u}", nbsx2(peek(reord_q)->base)));
+#ifdef KJN_LBZIP2_VERIF
+    verif_event("x-reorder-reject");
+#endif
     free(dequeue(reord_q));
     out_slots++;
     check_invariants();
@@ -780,6 +798,9 @@ do_scan(void)
   if (pos_le(bs->pos, parser_bs.pos)) {
     Trace(("Scanner found a known pattern at {%lu}",
            32ul + 32ul * bs->offset - bs->live));
+#ifdef KJN_LBZIP2_VERIF
+    verif_event("x-scan-known");
+#endif
     work_units++;
   }
   else {
@@ -788,6 +809,9 @@ do_scan(void)
 
     Trace(("Scanner found a unique match at {%lu}",
            32ul + 32ul * bs->offset - bs->live));
+#ifdef KJN_LBZIP2_VERIF
+    verif_event("x-scan-candidate");
+#endif
 
     ub = XMALLOC(struct unord_blk);
     ub->base = bs->pos;
